@@ -19,19 +19,25 @@ Trace == ndJsonDeserialize("trace_curves.ndjson")
 VARIABLES e, judged
 tvars == <<e, judged, cv, done>>
 
-Q(ev) == IF ev.cv.type = "chain" THEN QCH ELSE IF ev.cv.type = "arc" THEN (IF ev.cv.shape = "chordrx" THEN 32 ELSE ArcQ(ev.cv.shape)) ELSE QB
+Q(ev) == IF ev.cv.type \in {"chain", "bigcubic"} THEN QCH ELSE IF ev.cv.type = "arc" THEN (IF ev.cv.shape = "chordrx" THEN 32 ELSE ArcQ(ev.cv.shape)) ELSE QB
 SclPt(p, q) == <<q * p[1], q * p[2]>>
 \* way-points in Q units
 WPof(ev) == CASE ev.cv.type = "quad"  -> QuadWP(ev.cv.pts)
               [] ev.cv.type = "cubic" -> CubeWP(ev.cv.pts)
               [] ev.cv.type = "chain" -> ChainWP(ev.cv)
+              [] ev.cv.type = "bigcubic" -> BezWP(ev.cv.pts, QCH)
+              [] ev.cv.type = "arc" /\ ev.cv.shape = "chord2ry" -> (IF ev.cv.ccw THEN << <<0,0>>, <<2 * R * 16, 0>> >> ELSE << <<2 * R * 16, 0>>, <<0,0>> >>)
               [] ev.cv.type = "arc" /\ ev.cv.shape = "chordrx" -> (IF ev.cv.ccw THEN << <<0,0>>, <<R * 32, 0>> >> ELSE << <<R * 32, 0>>, <<0,0>> >>)
               [] OTHER -> LET w == ArcWPu(ev.cv) IN [j \in 1..Len(w) |-> SclPt(w[j], Q(ev))]
 \* sagitta of the 60 degree arc: R - sqrt(3/4) R
+\* sagitta of the flat arc over the chord 2 ry of the ellipse rx = 3 ry: ry - sqrt(8/9) ry
+Chord2RyGap == R * 16 - ISqrtLo((8 * (R * 16) * (R * 16)) \div 9) + 1
 ChordRxGap == R * 32 - ISqrtLo((3 * (R * 32) * (R * 32)) \div 4) + 1
 GapOf(ev) == CASE ev.cv.type = "quad"  -> QuadGap(ev.cv.pts)
                [] ev.cv.type = "cubic" -> CubeGap(ev.cv.pts)
                [] ev.cv.type = "chain" -> ChainGap(ev.cv)
+               [] ev.cv.type = "bigcubic" -> BezGap(ev.cv.pts, QCH)
+               [] ev.cv.type = "arc" /\ ev.cv.shape = "chord2ry" -> Chord2RyGap
                [] ev.cv.type = "arc" /\ ev.cv.shape = "chordrx" -> ChordRxGap
                [] OTHER -> ArcGap(ev.cv.shape)
 \* index of the sub-path that holds the curve, number of sub-paths (post: a closed triangle follows the curve's sub-path)
@@ -43,7 +49,7 @@ PostTri(ev) == LET T == IF ev.cv.type \in {"quad", "cubic"} THEN 5 ELSE 200 u ==
 PreLine == << <<0, 0>>, <<3, 2>> >>
 \* ReplaceArcs: "fixed small relative error": 2.5e-3 of the larger radius (calibrated: the conversion of a 90 degree
 \* piece is off by 1.96e-3 r; DESIGN assumed 3e-4)
-RepR(ev) == CeilDiv(25 * (IF ev.cv.shape \in {"ellipse", "ellipse90"} THEN 2 * R ELSE R) * Q(ev), 10000) + 2
+RepR(ev) == CeilDiv(25 * (IF ev.cv.shape \in {"ellipse", "ellipse90"} THEN 2 * R ELSE IF ev.cv.shape = "chord2ry" THEN 3 * R ELSE R) * Q(ev), 10000) + 2
 \* radii: flatten uses the tolerance of the call; ReplaceArcs must stay within 3e-4 of the radius, XMonotone is exact
 RW(ev) == CASE ev.op = "flatten" -> RadW(Q(ev), ev.tn, ev.td)
             [] ev.op = "replacearcs" -> RepR(ev)
@@ -75,7 +81,7 @@ VerticesNear(ev)  == LET wp == WPof(ev) IN Cover(CurvePart(ev), 1, wp, 1, RV(ev)
 \* circle / ellipse: every vertex in the annulus of half width RV around the curve (the ellipse is judged after stretching
 \* its short axis by 2, which enlarges distances by at most 2)
 Annulus(ev) ==
-    (ev.cv.type = "arc" /\ ev.cv.shape # "chordrx") =>
+    (ev.cv.type = "arc" /\ ev.cv.shape \notin {"chordrx", "chord2ry"}) =>
        LET q == Q(ev) pl == CurvePart(ev) r == RV(ev) IN
        \A j \in 1..Len(pl) :
           LET v == pl[j]
